@@ -13,7 +13,7 @@
 (* A tagged parameter is [k |-> "c", v] | [k |-> "t1"|"t2", vi, io, f]      *)
 (* (numbers in wire form).                                                  *)
 (***************************************************************************)
-EXTENDS Dec
+EXTENDS Dec, FiniteSets
 
 One == DInt(1)
 Fr(n, d) == <<n, d>>
@@ -67,16 +67,23 @@ Lin2(xs, ys, f, x0, y0) ==
           IN Cell2(xs[j], xs[j + 1], ys[i], ys[i + 1],
                    f[i][j], f[i][j + 1], f[i + 1][j], f[i + 1][j + 1], x, y)
 
+\* The rows of a 2-D table may be given in any order of vi (the library treats the table as a scatter of
+\* points): SortIdx(ys)[k] is the index of the k-th smallest entry of ys (entries distinct).
+SortIdx(ys) == [k \in DOMAIN ys |-> CHOOSE i \in DOMAIN ys : Cardinality({j \in DOMAIN ys : DLt(ys[j], ys[i])}) = k - 1]
+
 \* admissible values of tagged parameter p at (|io|, |vi|)
+ParamVals2(xs, ys, f, ord, io, vi) ==
+  Lin2(xs, [k \in DOMAIN ys |-> ys[ord[k]]], [k \in DOMAIN ys |-> AbsSeq(f[ord[k]])], io, vi)
 ParamVals(p, io, vi) ==
   IF p.k = "c" THEN {Fr(AbsJ(p.v), One)}
   ELSE IF p.k = "t1" THEN {Lin1(AbsSeq(p.io), AbsSeq(p.f[1]), DAbs(io))}
-  ELSE Lin2(AbsSeq(p.io), AbsSeq(p.vi), [i \in DOMAIN p.f |-> AbsSeq(p.f[i])], DAbs(io), DAbs(vi))
+  ELSE ParamVals2(AbsSeq(p.io), AbsSeq(p.vi), p.f, SortIdx(AbsSeq(p.vi)), DAbs(io), DAbs(vi))
 
 \* well-conditioned table: strictly increasing io axis, strictly increasing vi axis
 RECURSIVE Increasing(_)
 Increasing(s) == Len(s) <= 1 \/ (DLt(s[1], s[2]) /\ Increasing(Tail(s)))
-TableOK(p) == p.k = "c" \/ (p.k \in {"t1", "t2"} /\ Increasing(AbsSeq(p.io)) /\ Increasing(AbsSeq(p.vi)))
+Distinct(s) == \A i, j \in DOMAIN s : DEq(s[i], s[j]) => i = j
+TableOK(p) == p.k = "c" \/ (p.k \in {"t1", "t2"} /\ Increasing(AbsSeq(p.io)) /\ Distinct(AbsSeq(p.vi)))
 
 \* range of the corner values of the enclosing cell (for the C10 range clause)
 FrLeq(a, b) == DLeq(a[1] \otimes b[2], b[1] \otimes a[2])     \* a <= b for positive denominators
